@@ -113,7 +113,7 @@ def run(tape, scenario):
             rec["reads"].extend((ln, getattr(dev, f"i{i}")) for i, ln in enumerate(ins))
             for j, ln in enumerate(outs):
                 if tape.chance("c30/set-output", 70):
-                    v = wl.draw_value(tape, ln, "c30")
+                    v = wl.draw_value(tape, ln, "c30", truthy=True)
                     setattr(dev, f"o{j}", v)
                     wl.apply_output(ln, model[ln["term"]], v)
 
